@@ -70,9 +70,15 @@ func (g *lexGen) rangeTerm() Term {
 			a--
 		}
 		b = a + rune(1+g.r.Intn(4))
+	case 2: // starts exactly two above another rune of the alphabet: a one-character gap between classes
+		a = g.rune1() + 2
+		b = a + rune(g.r.Intn(3))
 	}
 	if a > b {
 		a, b = b, a
+	}
+	if a > utf8.MaxRune {
+		a = utf8.MaxRune
 	}
 	if b > utf8.MaxRune {
 		b = utf8.MaxRune
@@ -87,15 +93,39 @@ func (g *lexGen) rangeTerm() Term {
 	return Rng(a, b)
 }
 
+// fixRune keeps a computed rune inside the valid, spellable range.
+func fixRune(r rune) rune {
+	if r < 0 {
+		return 0
+	}
+	if r > utf8.MaxRune {
+		return utf8.MaxRune
+	}
+	if r >= 0xd800 && r <= 0xdfff {
+		return 0xe000
+	}
+	return r
+}
+
 // charClass builds an S1 pattern: an alternation of single literals / ranges / S1 refs.
 func (g *lexGen) charClass() *Pattern {
 	p := &Pattern{}
 	n := 1 + g.r.Intn(4)
 	for i := 0; i < n; i++ {
 		var t Term
-		switch k := g.r.Intn(10); {
+		switch k := g.r.Intn(12); {
 		case k < 5:
 			t = Lit(g.rune1())
+		case k == 10 && len(p.Alts) > 0:
+			// a class member exactly two above (or below) the previous one: one-character gap
+			prev := p.Alts[len(p.Alts)-1].Terms[0]
+			if prev.Kind == TRef {
+				t = Lit(g.rune1())
+			} else if g.r.Intn(2) == 0 || prev.Lo < 2 {
+				t = Lit(fixRune(prev.Hi + 2))
+			} else {
+				t = Lit(fixRune(prev.Lo - 2))
+			}
 		case k < 8 || len(g.s1) == 0:
 			t = g.rangeTerm()
 		default:
@@ -488,6 +518,30 @@ func GenLexInputs(r *rand.Rand, g *Grammar, n int) [][]byte {
 		return []byte(string(asciiPool[r.Intn(len(asciiPool))]))
 	}
 	out := [][]byte{{}}
+	// systematic probes: every prefix of some sampled lexemes followed by every rune of the
+	// core and boundary alphabets (covers (state, class boundary) pairs), optionally continued
+	probeBudget := n / 2
+	allRunes := append(append([]rune(nil), core...), boundary...)
+	for tries := 0; tries < 40 && probeBudget > 0; tries++ {
+		lx := []rune(string(lexeme()))
+		if len(lx) > 6 {
+			lx = lx[:6]
+		}
+		for p := 0; p <= len(lx) && probeBudget > 0; p++ {
+			for _, c := range allRunes {
+				if probeBudget <= 0 {
+					break
+				}
+				b := []byte(string(lx[:p]) + string(c))
+				if r.Intn(3) == 0 && p < len(lx) {
+					b = append(b, []byte(string(lx[p:]))...)
+				}
+				out = append(out, b)
+				probeBudget--
+			}
+		}
+	}
+	n += len(out) - 1
 	for len(out) < n {
 		var b []byte
 		switch r.Intn(8) {
